@@ -54,6 +54,17 @@ func cmdFn(args []string) {
 	} else {
 		fmt.Println("smt dir:", dir)
 	}
+	for _, k := range sortedKeys(g.cs.Lemmas) {
+		l := g.cs.Lemmas[k]
+		if !strings.Contains(k, ".") || !strings.Contains(k, pat) {
+			continue
+		}
+		res := verifyLemma(g, l)
+		for _, o := range res.Obls {
+			discharge(dir, res.VC, o, *timeout, false)
+			fmt.Printf("  %-8s %-60s %s %.2fs %s\n", o.Result, o.ID, o.Solver, o.TimeS, o.Detail)
+		}
+	}
 	for _, id := range sortedKeys(g.cs.Funcs) {
 		if !strings.Contains(id, pat) {
 			continue
